@@ -43,6 +43,11 @@ def catalogue():
         add("F.AS[%d]" % i, idx(path("F.AS"), atom(cint(i))), "str", "string", "F", "slice")
         add("F.AF[%d]" % i, idx(path("F.AF"), atom(cint(i))), "float", "float64", "F", "slice")
         add("F.AP[%d].N" % i, fld(idx(path("F.AP"), atom(cint(i))), "N"), "int", "int64", "F", "slice")
+    add("F.AA[1][0]", idx(idx(path("F.AA"), atom(cint(1))), atom(cint(0))), "int", "int64", "F", "slice")
+    add("F.AA[0][1]", idx(idx(path("F.AA"), atom(cint(0))), atom(cint(1))), "int", "int64", "F", "slice")
+    add("F.AA[F.J][0]", idx(idx(path("F.AA"), atom(var(path("F.J")))), atom(cint(0))), "int", "int64", "F", "dynidx")
+    add("F.AA[1][F.J]", idx(idx(path("F.AA"), atom(cint(1))), atom(var(path("F.J")))), "int", "int64", "F", "dynidx")
+    add("J.g[1][0]", idx(idx(path("J.g"), atom(cint(1))), atom(cint(0))), "float", "json", "J", "json")
     for k in ["a", "b"]:
         add('F.M["%s"]' % k, idx(path("F.M"), atom(cstr(k))), "int", "int64", "F", "map")
         add('F.MS["%s"]' % k, idx(path("F.MS"), atom(cstr(k))), "str", "string", "F", "map")
@@ -93,7 +98,7 @@ PROFILES = {
     # everything the grammar allows on these facts
     "wild": Profile("wild", {"field", "ptrfield", "valfield", "slice", "map", "top", "json", "jsonsel", "dynidx"},
                     dynidx=True, mixed_json=True, failures=0.1, impure=True),
-    "faulty": Profile("faulty", {"field", "ptrfield", "slice", "map", "top", "json"}, failures=0.5),
+    "faulty": Profile("faulty", {"field", "ptrfield", "slice", "map", "top", "json", "dynidx"}, failures=0.5, dynidx=True),
     # fact methods that cancel the run's context from inside a condition or an action
     "cancel": Profile("cancel", {"field", "ptrfield", "slice", "map", "top"}, cancels=True),
 }
@@ -108,9 +113,17 @@ class RuleGen:
         n = rng.range(3, 6)
         self.pool = []
         tries = 0
+
+        def container(c):
+            return c.name.split("[")[0]
         while len(self.pool) < n and tries < 100:
             tries += 1
             c = rng.choice(cells)
+            if self.pool and rng.chance(0.45):
+                # bias towards cells reached through the same container as one already chosen (aliasing shapes)
+                rel = [x for x in cells if x not in self.pool and any(container(x) == container(y) and "[" in x.name for y in self.pool)]
+                if rel:
+                    c = rng.choice(rel)
             if c in self.pool:
                 continue
             if not profile.mixed_json:
@@ -126,6 +139,7 @@ class RuleGen:
         self.shared = {"int": [], "float": [], "str": [], "bool": []}
         self.rule_names = []
         self.uses_method_state = False
+        self.made_holes = False
 
     # ---- leaves ----------------------------------------------------------------------------
     def cells_of(self, ty):
@@ -183,6 +197,10 @@ class RuleGen:
         if k == "bit":
             return bin_(r.choice(["&", "|"]), self.expr("int", d - 1), self.expr("int", d - 1))
         if k == "heavy":
+            if r.chance(0.3):
+                # a counted method on a nested object
+                recv = r.choice([path("F.P"), path("F.V"), idx(path("F.AP"), atom(cint(r.range(0, 1))))])
+                return atom(meth(var(recv), "Score", self.i64_arg(0)))
             return atom(meth(var(root("F")), "Heavy", self.i64_arg(d - 1)))
         if k == "sum":
             return atom(meth(var(root("F")), "Sum", *[self.i64_arg(0) for _ in range(r.range(0, 3))]))
@@ -280,8 +298,10 @@ class RuleGen:
                 a = var(r.choice(cs).var)
                 return atom(neg(a)) if r.chance(0.3) else atom(a)
             return self.cmp(0)
-        k = r.weighted([("cmp", 8), ("and", 3), ("or", 2), ("not", 2), ("strpred", 2), ("cell", 1), ("isz", 1),
-                        ("negm", 1 if self.p.methods else 0)])
+        k = r.weighted([("cmp", 8), ("and", 3), ("or", 3), ("not", 2), ("strpred", 2), ("cell", 1), ("isz", 1),
+                        ("negm", 1 if self.p.methods else 0), ("paren", 2)])
+        if k == "paren":
+            return par(self.expr("bool", d - 1))
         if k == "cmp":
             return self.cmp(d - 1)
         if k == "and":
@@ -328,6 +348,8 @@ class RuleGen:
     def assignment(self):
         r = self.r
         c = r.choice(self.writable())
+        if self.p.dynidx and any(x.cls == "dynidx" for x in self.pool) and r.chance(0.2):
+            return assign("=", path("F.J"), r.choice([atom(cint(r.range(0, 3))), bin_("+", atom(var(path("F.J"))), atom(cint(1)))]))
         if c.ty == "int":
             if c.kind in ("json",):
                 op = r.choice(["=", "+=", "-="])
@@ -432,6 +454,16 @@ class RuleGen:
         out = []
         for nm in names:
             cond = self.expr("bool", r.range(1, 3))
+            dyn = [c for c in self.pool if c.cls == "dynidx"]
+            holeable = [c for c in self.pool if c.cls in ("map", "slice", "ptrfield", "json") and c.ty in ("int", "float", "str")]
+            if (dyn and r.chance(0.35)) or (holeable and r.chance(0.12 + self.p.failures * 0.4)):
+                # a sub-expression that evaluates fine at first and fails later: once the index has moved out of range
+                # (same run), or when a later call's facts lack the key / element / pointer (same instance)
+                c0 = r.choice(dyn) if dyn and (not holeable or r.chance(0.5)) else r.choice(holeable)
+                first = bin_(r.choice(["==", "<", ">=", "!="]), atom(var(c0.var)), self.const(c0.ty))
+                if r.chance(0.7):
+                    first = par(first, neg=r.chance(0.3))
+                cond = bin_(r.choice(["||", "&&"]), first, cond) if r.chance(0.7) else bin_(r.choice(["||", "&&"]), cond, first)
             if cond[0] == "atom" and r.chance(0.3):
                 cond = par(cond)
             sal = r.choice([0, 0, 0, 1, -1, 5, 10, -2147483648, 2147483647, r.range(-3, 3)])
@@ -444,6 +476,33 @@ class RuleGen:
 
     # ---- facts ------------------------------------------------------------------------------
     def facts(self):
+        st = self.facts_full()
+        r = self.r
+        if not r.chance(0.22):
+            return st
+        self.made_holes = True
+        # holes: what a rule reads may be missing in this call's facts (nil pointer, absent key, short slice, absent
+        # JSON member) although an earlier call on the same instance found it
+        f = dict((k, v) for k, v in st[0][1][2][2])
+        def setf(name, node):
+            for kv in st[0][1][2][2]:
+                if kv[0] == name:
+                    kv[1] = node
+        for name in r.shuffle(["P", "M", "MS", "MI", "A", "AS", "AF", "AP", "AA"])[:r.range(1, 3)]:
+            node = f[name]
+            if name == "P":
+                setf(name, ["ptr", "Sub", None])
+            elif node[0] == "map":
+                setf(name, [node[0], node[1], node[2], node[3][:r.range(0, 1)]])
+            elif node[0] == "slice":
+                setf(name, [node[0], node[1], node[2][:r.range(0, 1)]])
+        if r.chance(0.3):
+            for kv in st:
+                if kv[0] == "J":
+                    kv[1] = ["jobj", [m for m in kv[1][1] if m[0] not in (r.choice(["n", "m", "s", "o", "a"]),)]]
+        return st
+
+    def facts_full(self):
         r = self.r
         small = lambda: r.choice([0, 0, 1, 2, 3, 5])
         f = fact(I=small(), J=r.choice([0, 0, 1, 2]), I8=r.choice([0, 1, 126, -128]), I16=small(), I32=small(), In=small(),
@@ -453,13 +512,13 @@ class RuleGen:
                  P=sub(N=small(), S=r.choice(["", "p"]), B=r.chance(0.5), F=r.choice([0.0, 1.5])), Q=None,
                  V=sub(N=small(), S=r.choice(["", "v"])),
                  A=[small(), small(), small()], AS=["x", "y"], AF=[0.5, 1.5],
-                 AP=[sub(N=small()), sub(N=small())],
+                 AP=[sub(N=small()), sub(N=small())], AA=[[small(), small()], [small(), small()]],
                  M={"a": small(), "b": small()}, MS={"a": "s", "b": ""}, MI={1: small(), 2: small()},
                  X=leaf("int64", small()))
         st = [["F", f], ["N", leaf("int64", small())], ["K", leaf("int64", small())], ["TS", leaf("string", r.choice(["", "t"]))],
               ["TB", leaf("bool", r.chance(0.5))], ["TF", leaf("float64", r.choice([0.0, 0.5]))],
               ["J", jtree({"n": small(), "m": 1.5, "s": r.choice(["", "js"]), "b": r.chance(0.5), "o": {"n": small()},
-                           "a": [small(), 2]})]]
+                           "a": [small(), 2], "g": [[small(), 1], [small(), 2]]})]]
         return st
 
 
@@ -470,12 +529,28 @@ def engine_scenario(rng: Rng, sid, profile="stable", nexec=None, wm=True):
     ops = [{"op": "build", "lib": "L", "kb": "K", "wm": wm, "text": Printer().doc(rules), "rules": rules,
             "ftext": [[b, t] for b, t in collect_ftext(rules, {}).items()]},
            {"op": "inst", "lib": "L", "kb": "K", "as": "i"}]
-    n = nexec if nexec is not None else rng.weighted([(1, 6), (2, 3), (3, 1)])
+    # strings that are concatenated with themselves grow exponentially with the number of firings: bound the runs
+    pr = Printer()
+    growth = 1
+    for r_ in rules:
+        f = 1
+        for a in r_["then"]:
+            if a[0] == "as":
+                tgt = pr.var(a[2])
+                k = pr.expr(a[3]).count(tgt) + (1 if a[1] == "+=" else 0)
+                if k >= 2:
+                    f *= k
+        growth = max(growth, f)
+    cap = 12
+    if growth >= 2:
+        import math
+        cap = max(1, int(math.log(1e5) / math.log(growth)))
+    n = nexec if nexec is not None else rng.weighted([(1, 5), (2, 3), (3, 2)])
     for _ in range(n):
         if rng.chance(0.2):
             ops.append({"op": "fetch", "inst": "i", "facts": g.facts(), "retErr": rng.chance(0.2)})
         else:
-            op = {"op": "exec", "inst": "i", "facts": g.facts(), "max": rng.choice([0, 1, 2, 3, 5, 8, 12]),
+            op = {"op": "exec", "inst": "i", "facts": g.facts(), "max": min(cap, rng.choice([0, 1, 2, 3, 5, 8, 12])),
                   "retErr": rng.chance(0.15), "cancelAt": None, "listeners": rng.choice([0, 0, 1, 2])}
             x = rng.below(100)
             if x < 12:
@@ -486,6 +561,8 @@ def engine_scenario(rng: Rng, sid, profile="stable", nexec=None, wm=True):
                 op["ctxErr"] = "deadline"
             ops.append(op)
     sc = {"id": sid, "profile": profile, "ops": ops, "meta": {"pool": [c.name for c in g.pool]}}
+    if g.made_holes:
+        sc["holes"] = True
     if g.uses_method_state:
         # impure / call-count-keyed fact methods: outside the property oracle's quantifier (documented
         # contract: such changes must be announced with Changed/Forget); kept for model correspondence
